@@ -95,6 +95,48 @@ def _run_entry(entry):
         shutil.rmtree(tmp, ignore_errors=True)
 
 
+def _run_patch_twin(args):
+    """A whole behaviour-preserving refactoring (selftest/twins/<name>.diff, each confirmed against
+    the test suite and an output-equivalence script when it was written) applied to a scratch
+    copy: no requested rule may report a finding it does not report on the tree itself."""
+    name, rules = args
+    import subprocess
+    diff = os.path.join(HERE, 'selftest', 'twins', name + '.diff')
+    tmp = tempfile.mkdtemp(prefix='rsx_twin_')
+    try:
+        shutil.copytree(os.path.join(REPO, 'rsome'), os.path.join(tmp, 'rsome'),
+                        ignore=shutil.ignore_patterns('__pycache__'))
+        pr = subprocess.run(['patch', '-p1', '-s', '--no-backup-if-mismatch', '-i', diff], cwd=tmp,
+                            capture_output=True, text=True)
+        if pr.returncode != 0:
+            return [{'id': 'TWIN-%s' % name, 'kind': 'twin', 'rule': '*', 'status': 'stale',
+                     'detail': 'patch no longer applies'}]
+        out = []
+        for rid in rules:
+            rec = {'id': 'TWIN-%s/%s' % (name, rid), 'kind': 'twin', 'rule': rid}
+            try:
+                base = _findings(REPO, rid)
+            except AnalysisError as exc:
+                rec.update(status='error', detail='baseline: %s' % exc)
+                out.append(rec)
+                continue
+            try:
+                got = _findings(tmp, rid)
+                new = [k for k in got if k not in base]
+                rec.update(status='silent' if not new else 'twin-alarm', detail=new[:3])
+            except AnalysisError as exc:
+                rec.update(status='blind', detail=str(exc)[:160])
+            out.append(rec)
+        return out
+    finally:
+        shutil.rmtree(tmp, ignore_errors=True)
+
+
+def patch_twins():
+    d = os.path.join(HERE, 'selftest', 'twins')
+    return sorted(f[:-5] for f in os.listdir(d) if f.endswith('.diff')) if os.path.isdir(d) else []
+
+
 def run_for_rules(rules, jobs=None):
     entries = [e for e in catalogue() if e['rule'] in rules]
     jobs = jobs or min(16, max(1, len(entries)))
@@ -102,6 +144,11 @@ def run_for_rules(rules, jobs=None):
     if entries:
         with ProcessPoolExecutor(max_workers=jobs) as ex:
             results = list(ex.map(_run_entry, entries))
+    tw = [(name, sorted(rules)) for name in patch_twins()]
+    if tw:
+        with ProcessPoolExecutor(max_workers=min(16, len(tw))) as ex:
+            for lst in ex.map(_run_patch_twin, tw):
+                results.extend(lst)
     stale = [r['id'] for r in results if r['status'] == 'stale']
     errors = [r for r in results if r['status'] == 'error']
     if errors:
